@@ -3868,3 +3868,249 @@ def compaction_progress_rules(ctx):
         ctx._ob(not bad, ctx.sample('must-pass', f, cp[0].line, 'a pass that relocated pages is committed before the next drain'))
         if bad:
             ctx.violate('must-pass|%s|progress-without-commit' % f.path, 'compact() can go on to the next drain / pass after compact_pages() returned true without committing the relocation (the loop would report progress forever)', f, cp[0].line)
+
+
+# ------------------------------------------------------------------------------------ state writers (from the deletion survey)
+def _rv_operands(rv):
+    k = rv['k']
+    if k in ('use', 'un', 'cast', 'repeat'):
+        return [rv['o']]
+    if k in ('bin', 'agg'):
+        return list(rv['o'])
+    if k in ('ref', 'rawptr'):
+        return [('c', rv['p'])]
+    return []
+
+
+def _field_store_points(f, field, deref_name=None):
+    """assignments whose destination ends in `.field` -- or, with deref_name, `*<binding named so>`"""
+    out = []
+    for bi, b in enumerate(f.blocks):
+        if b['c']:
+            continue
+        for si, st in enumerate(b['s']):
+            if st[0] != 'a' or not st[1][1]:
+                continue
+            if deref_name is not None:
+                if st[1][1] == ['*'] and f.local_name(st[1][0]) == deref_name:
+                    out.append((Point(f, bi, si, 'store *%s' % deref_name, st[3]), st))
+            elif st[1][1][-1] == '.' + field:
+                out.append((Point(f, bi, si, 'store .%s' % field, st[3]), st))
+    return out
+
+
+def store_rule(ctx, fn_pat, field, src=None, what='', n=1, deref_name=None, exits='success', must=True):
+    """the function writes `field` (at least n times), the written value derives from `src`
+    (('arg', name) | ('call', pattern) | ('op', binop)), and the write is on every success path"""
+    f = ctx.fn(fn_pat)
+    if f is None:
+        return 0
+    pts = _field_store_points(f, field, deref_name)
+    nm = deref_name or field
+    ok = len(pts) >= n
+    ctx._ob(ok, ctx.sample('stores', f, f.line, '%s writes %s' % (fn_pat, nm)))
+    if not ok:
+        ctx.violate('floor|%s|store %s' % (f.path, nm), 'expected at least %d write(s) of `%s` in %s (%s), found %d' % (n, nm, fn_pat, what, len(pts)), f, f.line)
+        return 0
+    for p, st in pts:
+        rv = st[2]
+        good = True
+        if src is not None:
+            ops = _rv_operands(rv)
+            if src[0] == 'arg':
+                good = any(o[0] != 'k' and core.flows_from_arg(f, o, src[1]) for o in ops)
+            elif src[0] == 'call':
+                good = any(o[0] != 'k' and core.flows_from_call(f, o, src[1]) for o in ops)
+            elif src[0] == 'op':
+                good = rv['k'] == 'bin' and rv['op'] in src[1:]
+                if not good and rv['k'] == 'use' and rv['o'][0] != 'k':
+                    t = core.sym(f).operand(rv['o'])
+                    good = (t[0] == 'cmp' and t[1] in src[1:]) or (t[0] == 'place' and t[1][0] == 'cmp' and t[1][1] in src[1:])
+        ctx._ob(good, ctx.sample('arg-flow', f, p.line, '%s: %s' % (nm, what)))
+        if not good:
+            ctx.violate('arg-flow|%s|store %s' % (f.path, nm), 'the value written to `%s` in %s does not derive from %s (%s)' % (nm, fn_pat, src, what), f, p.line)
+    if must:
+        ctx.must_pass(f, [p for p, _ in pts], exits=exits, what='%s always writes %s' % (fn_pat, nm))
+    return 1
+
+
+def call_rule(ctx, fn_pat, callee, what, exact=None, floor=1, exits='success', arg_from=None):
+    f = ctx.fn(fn_pat)
+    if f is None:
+        return []
+    cs = ctx.sites(f, callee, exact=exact, floor=floor)
+    if cs:
+        ctx.must_pass(f, cs, exits=exits, what=what)
+        for (idx, src) in (arg_from or []):
+            for p in cs:
+                if src[0] == 'arg':
+                    ctx.flows(f, p, idx, from_arg=src[1])
+                else:
+                    ctx.flows(f, p, idx, from_call=src[1])
+    return cs
+
+
+def state_writer_rules(ctx):
+    H = 'DatabaseHeader'
+    ctx.set_rule('C01.R11', 'the header mutators used by the commit protocol do what the protocol assumes')
+    store_rule(ctx, H + '::write_secondary_slot', 'transaction_id', ('arg', 'transaction_id'), 'the new commit\'s id goes into the secondary slot')
+    store_rule(ctx, H + '::write_secondary_slot', 'user_root', ('arg', 'user_root'), 'the new data root goes into the secondary slot')
+    store_rule(ctx, H + '::write_secondary_slot', 'system_root', ('arg', 'system_root'), 'the new system root goes into the secondary slot')
+    store_rule(ctx, H + '::swap_primary_slot', 'primary_slot', ('op', 'BitXor'), 'the primary index is flipped')
+    f = ctx.fn(H + '::swap_primary_slot')
+    if f is not None:
+        for p_, st_ in _field_store_points(f, 'primary_slot'):
+            ops_ = st_[2].get('o', []) if st_[2]['k'] == 'bin' else []
+            ctx.check(any(o_[0] == 'k' and str(o_[2]) == '1' for o_ in ops_), 'const|%s|xor-1' % f.path, 'the primary index is xor-ed with 1', f, p_.line)
+    store_rule(ctx, H + '::set_layout', 'full_regions', ('call', 'DatabaseLayout::num_full_regions'), 'the layout\'s region count is recorded')
+    store_rule(ctx, H + '::set_layout', 'trailing_partial_region_pages', None, 'the trailing region size is recorded (both arms)', n=2)
+    f = ctx.fn(H + '::write_secondary_slot')
+    if f is not None:
+        # the slot written is the non-primary one
+        s_ = core.sym(f)
+        idx_ok = False
+        for b in f.blocks:
+            for st in b['s']:
+                if st[0] == 'a' and st[2]['k'] == 'bin' and st[2]['op'] == 'BitXor':
+                    d0 = s_.describe(s_.operand(st[2]['o'][0]))
+                    if d0.endswith('primary_slot'):
+                        idx_ok = True
+        ctx.check(idx_ok, 'shape|%s|secondary-index' % f.path, 'write_secondary_slot addresses transaction_slots[primary_slot ^ 1]', f, f.line)
+    f = ctx.fn(H + '::to_bytes')
+    if f is not None:
+        # every header flag that recovery reads is serialised on the arm that tests it
+        s_ = core.sym(f)
+        ors = []
+        for bi, b in enumerate(f.blocks):
+            for si, st in enumerate(b['s']):
+                if st[0] == 'a' and st[2]['k'] == 'bin' and st[2]['op'] == 'BitOr':
+                    ors.append(Point(f, bi, si, 'god byte |= flag', st[3]))
+        ctx.check(len(ors) >= 2, 'floor|%s|flags' % f.path, 'to_bytes ors the recovery-required and two-phase flags into the god byte (found %d)' % len(ors), f, f.line)
+        flag_of = {}
+        for p_ in ors:
+            st_ = f.blocks[p_.bb]['s'][p_.idx]
+            for o_ in st_[2]['o']:
+                if o_[0] == 'k' and len(o_) > 3 and o_[3]:
+                    flag_of[p_] = str(o_[3]).split('::')[-1]
+        for fld in ('self.recovery_required', 'self.two_phase_commit'):
+            e = core.guard_edges(f, [Guard(place=fld, vals={'true'})])
+            ctx.check(bool(e), 'guard-missing|%s|%s' % (f.path, fld), 'to_bytes tests %s' % fld, f, f.line)
+            if e and ors:
+                r = core.reach(f, cut_edges=e)
+                own = [p for p in ors if not core.point_reached(f, r, p.bb, p.idx)]
+                want = {'self.recovery_required': 'RECOVERY_REQUIRED', 'self.two_phase_commit': 'TWO_PHASE_COMMIT'}[fld]
+                ctx.check(any(flag_of.get(p) == want for p in own), 'guard|%s|%s|sets-bit' % (f.path, fld), 'the true arm of %s ors %s into the god byte (found %s)' % (fld, want, [flag_of.get(p) for p in own]), f, f.line)
+        cps = ctx.sites(f, 'copy_from_slice', floor=5)
+
+    ctx.set_rule('C03.R7', 'the tracker counters advance: a transaction / savepoint id is never handed out twice')
+    store_rule(ctx, TT + '::reserve_transaction_id', 'next_transaction_id', ('arg', 'id'), 'the reserved id becomes the high-water mark')
+    store_rule(ctx, TT + '::reserve_repair_transaction_id', 'next_transaction_id', ('arg', 'id'), 'a repair commit\'s id is never issued again')
+    store_rule(ctx, TT + '::restore_savepoint_counter_state', 'next_savepoint_id', ('arg', 'next_savepoint'), 'the persisted savepoint counter is restored on open')
+    store_rule(ctx, TT + '::allocate_savepoint', 'next_savepoint_id', ('call', 'SavepointId::next'), 'the savepoint counter advances with every allocation')
+    f = ctx.fn(TT + '::allocate_savepoint')
+    if f is not None:
+        ins = ctx.sites(f, 'BTreeMap::insert', exact=1)
+        ctx.must_pass(f, ins, exits='any', what='an allocated savepoint is registered as valid')
+        ctx.held(f, ins, TTSTATE)
+    for pat, callee, what in ((TT + '::register_persistent_savepoint', 'BTreeSet::insert', 'a re-registered persistent savepoint is recorded as persistent'),
+                              (TT + '::mark_savepoint_persistent', 'BTreeSet::insert', 'a savepoint made persistent is recorded as persistent')):
+        call_rule(ctx, pat, callee, what, floor=1, exits='any')
+    f = ctx.fn(TT + '::deallocate_savepoint')
+    if f is not None:
+        s_ = core.sym(f)
+        rm = [p for p in ctx.sites(f, ['BTreeMap::remove', 'BTreeSet::remove'], exact=2)]
+        subj = sorted(s_.describe(s_.operand(p.call.t['a'][0])).split('.')[-1] for p in rm)
+        ctx.check(subj == ['persistent_savepoints', 'valid_savepoints'], 'shape|%s|removes' % f.path, 'a deallocated savepoint leaves valid_savepoints and persistent_savepoints (found %s)' % subj, f, f.line)
+        ctx.must_pass(f, rm[:1], exits='any') if rm else None
+        for p in rm:
+            ctx.must_pass(f, [p], exits='any', what='both sets forget the savepoint')
+    for nm in ('TransactionId',):
+        g = ctx.fn(nm + '::increment')
+        if g is not None:
+            pts = [(Point(g, bi, si, 'store *self', st[3]), st) for bi, b in enumerate(g.blocks) for si, st in enumerate(b['s']) if st[0] == 'a' and st[1] == [1, ['*']]]
+            ctx.check(len(pts) >= 1, 'floor|%s|advance' % g.path, '%s::increment advances the counter in place' % nm, g, g.line)
+
+    ctx.set_rule('C10.R8', 'the finalized root replaces the tree\'s root')
+    store_rule(ctx, 'BtreeMut::finalize_dirty_checksums', 'root', ('call', 'UntypedBtreeMut::finalize_dirty_checksums'), 'the root with real checksums is kept')
+    store_rule(ctx, 'UntypedBtreeMut::finalize_dirty_checksums', 'root', ('call', 'UntypedBtreeMut::finalize_dirty_checksums_helper'), 'the root with real checksums is kept', must=False)
+    f = ctx.fn('UntypedBtreeMut::finalize_dirty_checksums')
+    if f is not None:
+        hp = ctx.sites(f, 'UntypedBtreeMut::finalize_dirty_checksums_helper', exact=1)
+        pts = [p for p, _ in _field_store_points(f, 'root')]
+        if hp and pts:
+            ctx.must_pass(f, pts, start=hp[0], exits='success', what='after the checksums were recomputed the new root is stored')
+    for pat in ('BtreeMut::set_root', 'TableTreeMut::set_root'):
+        g = ctx.fn(pat)
+        if g is not None:
+            if pat.startswith('BtreeMut'):
+                store_rule(ctx, pat, 'root', ('arg', 'root'), 'set_root stores its argument', exits='any')
+            else:
+                call_rule(ctx, pat, 'BtreeMut::set_root', 'the catalog root is replaced', exact=1, exits='any', arg_from=[(1, ('arg', 'root'))])
+
+    ctx.set_rule('C17.R7', 'the catalog sees what the transaction staged: pending roots reach lookups, relocation, flush; callbacks run')
+    for pat in ('TableTreeMut::get_table_untyped', 'TableTreeMut::get_table', 'TableTreeMut::relocate_tables', 'TableTreeMut::highest_index_pages'):
+        f = ctx.fn(pat)
+        if f is None:
+            continue
+        sh = ctx.sites(f, 'InternalTableDefinition::set_header', exact=1)
+        gt = ctx.sites(f, 'BTreeMap::get', exact=1)
+        if sh and gt:
+            e_none = core.guard_edges(f, [Guard(call='BTreeMap::get', vals={'None'})])
+            # from the lookup of a staged update, the definition is used only after set_header -- unless nothing is staged
+            uses = [cpoint(c) for c in f.calls if c.matches(['InternalTableDefinition::relocate_tree', 'InternalTableDefinition::visit_all_pages', 'InternalTableDefinition::check_match', 'InternalTableDefinition::check_match_untyped'])]
+            r = core.reach(f, start=(gt[0].bb, gt[0].idx), cut_blocks={p.bb for p in sh} | core.error_blocks(f), cut_edges=e_none)
+            bad = [u for u in uses if u.bb in r['term']]
+            rets = [rb for rb in f.ret_blocks() if rb in r['term']]
+            ctx._ob(not bad and not rets, ctx.sample('must-pass', f, gt[0].line, 'a staged root is applied to the definition before it is used'))
+            if bad or rets:
+                ctx.violate('must-pass|%s|staged-root-ignored' % f.path, 'the definition can be used (or returned) without the root / length staged earlier in this transaction', f, gt[0].line)
+            for p in sh:
+                ctx.flows(f, p, 1, from_call='BTreeMap::get')
+                ctx.flows(f, p, 2, from_call='BTreeMap::get')
+    call_rule(ctx, 'TableTreeMut::relocate_tables', 'BtreeMut::relocate', 'the catalog tree itself is relocated', exact=1)
+    f = ctx.fn('TableTreeMut::rename_table')
+    if f is not None:
+        cmu = ctx.sites(f, 'InternalTableDefinition::check_match_untyped', exact=1)
+        mut = ctx.sites(f, ['BtreeMut::remove', 'BtreeMut::insert'], exact=2)
+        somes = []
+        for bi, b_ in enumerate(f.blocks):
+            for si, s2 in enumerate(b_['s']):
+                if s2[0] == 'a' and s2[2]['k'] == 'agg' and s2[2]['v'] == 'Some' and f.local_name(s2[1][0]) == 'stored_definition':
+                    somes.append(Point(f, bi, si, 'stored_definition = Some(..)', s2[3]))
+        ctx.check(len(somes) == 1, 'floor|%s|stored-definition' % f.path, 'the stored definition is captured at one place', f, f.line)
+        ctx.guarded(f, somes, [ok('InternalTableDefinition::check_match_untyped')], 'the definition to move is accepted only after its kind was checked')
+        ctx.guarded(f, mut, [Guard(place='stored_definition', vals={'Some'})], 'the catalog is changed only for an accepted definition')
+        for p in cmu:
+            ctx.flows(f, p, 1, from_arg='table_type')
+    f = ctx.fn('TableTreeMut::flush_table_root_updates')
+    if f is not None:
+        for nm, n_ in (('table_length', 2), ('table_root', 2)):
+            pts = _field_store_points(f, None, deref_name=nm)
+            ctx.check(len(pts) >= n_, 'floor|%s|store %s' % (f.path, nm), 'flush_table_root_updates writes the staged %s into the definition for both table kinds (found %d)' % (nm, len(pts)), f, f.line)
+            for p, st in pts:
+                good = any(o[0] != 'k' and core.flows_from_call(f, o, 'mem::take') for o in _rv_operands(st[2]))
+                ctx._ob(good, ctx.sample('arg-flow', f, p.line, 'the written %s is the staged one' % nm))
+                if not good:
+                    ctx.violate('arg-flow|%s|%s' % (f.path, nm), 'the %s written into the definition is not the staged value' % nm, f, p.line)
+    for pat in ('TableTreeMut::open_table_and_flush_table_root', 'TableTreeMut::create_table_and_flush_table_root'):
+        f = ctx.fn(pat)
+        if f is None:
+            continue
+        cb = [cpoint(c, 'callback') for c in f.calls if c.declared and c.declared.split('::')[-1] in ('call_once', 'call_mut', 'call') and c.resolved is None]
+        ctx.check(len(cb) == 1, 'floor|%s|callback' % f.path, 'the caller\'s closure is invoked', f, f.line)
+        ctx.must_pass(f, cb, exits='success', what='the table is handed to the caller\'s closure on every success path')
+    f = ctx.fn('TableTreeMut::get_or_create_table')
+    if f is not None:
+        ins = ctx.sites(f, 'BtreeMut::insert', exact=1)
+        e_some = core.guard_edges(f, [Guard(call='TableTreeMut::get_table', vals={'Some'})])
+        ctx.must_pass(f, ins, exits='success', extra_cut_edges=e_some, what='a table that did not exist is entered into the catalog')
+
+    ctx.set_rule('C06.R11', 'page lists record what is pushed')
+    f = ctx.fn('PageListMut::push_back')
+    if f is not None:
+        ctx.sites(f, 'copy_from_slice', exact=2)
+        for p in ctx.sites(f, 'copy_from_slice', exact=2):
+            ctx.must_pass(f, [p], exits='any', what='both the count and the entry are written')
+    f = ctx.fn('PageListMut::clear')
+    if f is not None:
+        call_rule(ctx, 'PageListMut::clear', 'fill', 'clear resets the count', floor=1, exits='any')
